@@ -127,6 +127,38 @@ func c03ScenarioOpt(r *rand.Rand, conflicts bool, c11 bool) (*txWorld, string, e
 			fp += "p"
 		case k < 93 || (c11 && k < 100 && r.Intn(2) == 0):
 			w.pumpTxs()
+			if c11 && r.Intn(2) == 0 {
+				// the peer confirms some tracked transactions while the node is down: the node
+				// processes that block while catching up after the restart
+				var in []*txInfo
+				for _, t := range pool {
+					if unconf[t] && !confirmed[t] && r.Intn(2) == 0 {
+						ok := true
+						for _, sp := range t.spends {
+							if p := w.byID[sp.Hash]; p != nil && !confirmed[p] {
+								ok = false
+							}
+						}
+						for _, q := range append(in, keys(confirmed)...) {
+							if q != t && sharesOut(q, t) {
+								ok = false
+							}
+						}
+						if ok {
+							in = append(in, t)
+						}
+					}
+				}
+				w.c11RestartWith(func() {
+					w.mineOffline(in)
+				})
+				for _, t := range in {
+					confirmed[t] = true
+					delete(unconf, t)
+				}
+				fp += fmt.Sprintf("SO%d", len(in))
+				continue
+			}
 			if c11 {
 				w.c11Restart()
 			} else if err := w.restart(); err != nil {
@@ -155,6 +187,17 @@ func pickUnspentParent(r *rand.Rand, pool []*txInfo, spent map[wire.OutPoint]boo
 		return nil
 	}
 	return cand[r.Intn(len(cand))]
+}
+
+func sharesOut(a, b *txInfo) bool {
+	for _, x := range a.spends {
+		for _, y := range b.spends {
+			if x == y {
+				return true
+			}
+		}
+	}
+	return false
 }
 
 func keys(m map[*txInfo]bool) []*txInfo {
